@@ -41,6 +41,8 @@ type Config struct {
 	// history has a {k:"corpus"} op) | incr (corpus kept from the start and
 	// built incrementally)
 	Mode string `json:"mode"`
+	// Shape names the time shape of a C09 world (reporting only).
+	Shape string `json:"shape,omitempty"`
 }
 
 // Op is one element of a history.
